@@ -39,10 +39,32 @@ def make_jobs(chk):
     return jobs
 
 
+def cli_spends(chk, exe, jobs):
+    """the spends whose validity depends on the flag set, run through the real binary non-interactively with `-f<modifications>` (the option's
+    name lookup is only there); the set-up of witness types ignores WITNESS / P2SH (open finding), so only flag sets containing both"""
+    import concurrent.futures as cf
+    import ptydrv
+    from c09 import RecJob
+    from c08 import mods_for
+    sel = [j for j in jobs if j.id.startswith("tg:") and sorted(j.flags) != sorted(STANDARD) and "WITNESS" in j.flags and "P2SH" in j.flags]
+    def do(ij):
+        i, j = ij
+        args = [exe, "-f" + mods_for(j.flags), "--tx=" + j.txctx["tx"], "--txin=" + j.txctx["txin"]] + (["--select=%d" % j.txctx["select"]] if j.txctx.get("select", -1) >= 0 else [])
+        res = ptydrv.run_cli(args, stdin_tty=True, stdout_tty=False)
+        op = j.open_event(); op["cli"] = True; op["cmp"] = ["stack", "err"]; op["id"] = "cli%d:%s" % (i, j.id); op["mode"] = "stdin-tty/stdout-pipe"; op["opts"] = []
+        ev = {"e": "CliRun", "code": res["code"] if res["code"] is not None else -1, "sig": res["signal"] if isinstance(res["signal"], int) else (99 if res["signal"] else 0),
+              "stdout": res["stdout"].split("\n")[:-1] if res["code"] == 0 else [], "err": res["stderr"][-400:]}
+        return (RecJob(op["id"], op), [op, ev])
+    with cf.ThreadPoolExecutor(max_workers=16) as ex:
+        return list(ex.map(do, enumerate(sel)))
+
+
 def run(chk):
-    chk.build()
-    jobs = make_jobs(chk) + c01.probes(chk)
+    chk.build(mains=("btcdeb",))
+    jobs0 = make_jobs(chk)
+    jobs = jobs0 + c01.probes(chk)
     divs = chk.validate("Trace_Session", jobs, "c03")
+    divs += chk.validate_recorded("Trace_Session", cli_spends(chk, chk.build_obj.exe("btcdeb"), jobs0), "c03cli")
     chk.classify(divs)
     return chk.finish(rule=RULE, assumptions=ASSUME)
 
